@@ -367,6 +367,59 @@ def run_handoffs():
     return problems
 
 
+def run_nested_anonymous():
+    """directed (C03): anonymous windows nested 1-3 deep under an anonymous (or named) window.  The names a window absorbed from its own
+    anonymous windows are visible in the parent: a clash with them must be refused with ValueError and leave all_resources() of the parent as
+    it was; without a clash every resource is reported at the sum of the window bases with the path of the NAMED windows only."""
+    from amaranth_soc.memory import MemoryMap
+    R = _R()
+    problems = []
+    view = lambda m: [(id(i.resource), tuple(map(tuple, i.path)), i.start, i.end, i.width) for i in m.all_resources()]
+    for depth in (1, 2, 3):
+        for clash in (False, True):
+            for top_named in (False, True):
+                for res_first in (True, False):
+                    root = MemoryMap(addr_width=10, data_width=8)
+                    r_root = R()
+                    exp = []
+                    if res_first:
+                        s, e = root.add_resource(r_root, name="ctrl", size=4); exp.append((id(r_root), (("ctrl",),), s, e, 8))
+                    # innermost map holds "ctrl" (clash) or "data"; every level above adds one resource of its own and the level below as an anonymous window
+                    inner_name = "ctrl" if clash else "data"
+                    r_in = R()
+                    cur = MemoryMap(addr_width=3, data_width=8); s, e = cur.add_resource(r_in, name=inner_name, size=4)
+                    items = [(id(r_in), ((inner_name,),), s, e, 8)]
+                    for lvl in range(depth):
+                        up = MemoryMap(addr_width=4 + lvl, data_width=8)
+                        r_up = R(); s, e = up.add_resource(r_up, name=f"status{lvl}", size=2)
+                        ws, we, _ = up.add_window(cur)          # anonymous
+                        items = [(id(r_up), ((f"status{lvl}",),), s, e, 8)] + [(i, p, ws + a, ws + b, w) for (i, p, a, b, w) in items]
+                        cur = up
+                    before = view(root)
+                    desc = f"depth={depth} clash={clash} top_named={top_named} resource_first={res_first}"
+                    try:
+                        ws, we, _ = root.add_window(cur, name="top" if top_named else None)
+                        pre = (("top",),) if top_named else ()
+                        exp += [(i, pre + p, ws + a, ws + b, w) for (i, p, a, b, w) in items]
+                        if clash and res_first and not top_named:
+                            problems.append(("a window whose absorbed names clash with a visible name was accepted", desc)); continue
+                        if not res_first:
+                            s, e = root.add_resource(r_root, name="ctrl2", size=4); exp.append((id(r_root), (("ctrl2",),), s, e, 8))
+                    except ValueError:
+                        if not (clash and res_first and not top_named):
+                            problems.append(("a window without a name clash was refused", desc)); continue
+                        if view(root) != before:
+                            problems.append(("a refused add_window changed what all_resources() reports", desc, view(root)[:6]))
+                        continue
+                    except Exception as ex:
+                        problems.append(("add_window raised an internal error instead of placing the window or refusing it", type(ex).__name__, desc,
+                                         "all_resources() afterwards: " + str(view(root)[:6])))
+                        continue
+                    if sorted(view(root), key=lambda x: x[2]) != sorted(exp, key=lambda x: x[2]) or view(root) != sorted(view(root), key=lambda x: x[2]):
+                        problems.append(("all_resources differs from address arithmetic (nested anonymous windows)", desc, view(root)[:6], exp[:6]))
+    return problems
+
+
 def check_config(ctx, cfg):
     if cfg["kind"] == "history" and cfg["seed"] % 1000 == 0:
         hp = run_handoffs()
@@ -375,6 +428,8 @@ def check_config(ctx, cfg):
                             "cfg": cfg, "known_key": "frozen_by_handoff", "solver": "native evaluation"})
     if cfg["kind"] == "tree":
         extra = run_big_trees(cfg["seed"], max(3, cfg["trials"] // 20))
+        if cfg["seed"] % 1000 == 0:
+            extra += run_nested_anonymous()
     else:
         extra = []
     fn = run_history if cfg["kind"] == "history" else run_trees
